@@ -190,7 +190,12 @@ func (g *c06gen) sep(need bool) string {
 			nl = []string{"\n", "\r", "\r\n"}[g.rng.Intn(3)]
 		}
 		if g.policy == 3 && g.rng.Bool() || g.rng.Chance(1, 5) {
-			return " %" + []string{"", " comment ) ( >> ", "% x"}[g.rng.Intn(3)] + nl
+			// one comment, or a run of comments with their own line ends
+			out := ""
+			for n := []int{1, 1, 2, 3}[g.rng.Intn(4)]; n > 0; n-- {
+				out += " %" + []string{"", " comment ) ( >> ", "% x", " 7 0 R"}[g.rng.Intn(4)] + nl
+			}
+			return out
 		}
 		return nl
 	}
